@@ -146,7 +146,8 @@ pub struct HeadSpec {
     #[serde(default)]
     pub head_method: bool,
     /// how the request is made: 0 a plain GET; 1 a POST that carried a body; 2 a GET through an http
-    /// proxy - what is reported of the response head does not depend on it
+    /// proxy; 3 a GET with redirect following left at its default (on) - what is reported of the
+    /// response head does not depend on it
     #[serde(default)]
     pub request_kind: u8,
 }
@@ -272,7 +273,8 @@ fn new_request(max_headers: Option<usize>, head_method: bool, request_kind: u8) 
     } else {
         attohttpc::get("http://h.test/")
     }
-    .follow_redirects(false);
+    .follow_redirects(request_kind == 3);
+    // (kind 3 leaves following on: used with statuses that are not followed)
     if let Some(n) = max_headers {
         rb = rb.max_headers(n);
     }
@@ -762,6 +764,46 @@ pub fn space() -> Vec<HeadSpec> {
             });
         }
     }
+    // (A3) following left on, statuses that are not followed, with a Location field: reported as they are
+    for code in [300u16, 304, 305, 306, 309, 310, 350, 399] {
+        for loc in [&b"http://elsewhere.test/x"[..], &b"/other"[..]] {
+            v.push(HeadSpec {
+                group: "status-kind".into(),
+                version: "HTTP/1.1".into(),
+                code,
+                reason: Reason::Text(b"Multiple Choices".to_vec()),
+                fields: vec![fld("Location", 1, loc, 0), fld("a", 1, b"v", 0)],
+                body: body_for(code),
+                max_headers: None,
+                reject: false,
+                head_method: false,
+                request_kind: 3,
+            });
+        }
+    }
+    // (A4) a coded body that is not there yet (or never comes, or starts with a bad chunk-size line)
+    // when the head is complete: the head is reported all the same
+    for (coding, framing, body) in [
+        (&b"deflate"[..], fld("Content-Length", 1, b"10", 0), &b""[..]),
+        (&b"gzip"[..], fld("Content-Length", 1, b"10", 0), &b""[..]),
+        (&b"gzip"[..], fld("Content-Length", 1, b"30", 0), &b"\x1f\x8b\x08"[..]),
+        (&b"deflate"[..], fld("Transfer-Encoding", 1, b"chunked", 0), &b"zz\r\n"[..]),
+        (&b"gzip"[..], fld("Transfer-Encoding", 1, b"chunked", 0), &b""[..]),
+        (&b"deflate"[..], fld("X-Close-Delimited", 1, b"1", 0), &b""[..]),
+    ] {
+        v.push(HeadSpec {
+            group: "te".into(),
+            version: "HTTP/1.1".into(),
+            code: 200,
+            reason: Reason::Text(b"OK".to_vec()),
+            fields: vec![fld("Content-Encoding", 1, coding, 0), framing, fld("X-A", 1, b"1", 0)],
+            body: body.to_vec(),
+            max_headers: None,
+            reject: false,
+            head_method: false,
+            request_kind: 0,
+        });
+    }
     // (C) field count against max_headers: m-1, m accepted; m+1 rejected
     for m in [0usize, 1, 2, 100] {
         for same_name in [false, true] {
@@ -1243,7 +1285,7 @@ pub fn c04(ctx: &Ctx) -> Report {
             Tier::Thorough => "heads <= 80 bytes: every cut set of size <= 3 over all head offsets for lists of length <= 2, the status heads and the small count heads, size <= 2 for lists of length 3; te heads: size <= 2; 100-field heads: every pair of cuts within 1 of a line end; all: uniform 1/2/3/5/7/64; > 8 KiB heads: cut sets of size <= 3 (16000-byte value) / <= 2 (60 x 200) over offsets within 2 of a multiple of 8192 or of a line end, uniform 1/2/3/5/7/64/8191/8192",
         },
     );
-    rep.assume("requests are sent with follow_redirects(false): with the default, 301/302/303/307/308 are consumed by the redirect loop and never reach the caller");
+    rep.assume("requests are sent with follow_redirects(false) (except a group of not-followed 3xx statuses with a Location, sent with the default): with the default, 301/302/303/307/308 are consumed by the redirect loop and never reach the caller");
     rep.assume("the oracle is built from the generator's field list (name, blanks, intended value), never from the wire; a continuation LF is expected as exactly one space, and a run of blanks containing a continuation is also accepted as one or more spaces (RFC 9112 5.2)");
     rep.assume("outside the space: HTAB next to the colon or the line end, control bytes other than HTAB / bare LF, names that are not tokens, CRLF-folded values, status codes outside 100..=999");
     rep.assume("the segmentation the client sees is the peer's cut set intersected with its own 8 KiB BufReader reads");
